@@ -375,6 +375,11 @@ type c05Suite struct {
 	Protos []int     `json:"relevantProtocols"`
 	// SuiteMode: 0 every run mode, 1 only when a client is tested, 2 only when a server is tested
 	SuiteMode int `json:"suiteMode,omitempty"`
+	// Tmpl: the request template of every test of the suite carries fields the RUNNER owns (a suite
+	// built from a recorded request): 1 server_tls_cert, 2 client_tls_creds (cert + key), 4 host,
+	// 8 port, 16 http_version / protocol / codec / compression (stale values), 32 client_tls_creds
+	// that is present but empty; 64: only every other test of the suite
+	Tmpl int `json:"tmpl,omitempty"`
 }
 type c05In struct {
 	Mode        string     `json:"mode"` // both: recording client + recording servers; client: recording client, in-process reference + grpc servers
@@ -501,6 +506,63 @@ func c05CfgYAML(in c05In) string {
 	return b.String()
 }
 
+// c05StaleTemplate fills in the fields of a request template that the runner itself owns: whatever
+// they hold, the runner must assign (or clear) them for every permutation.
+func c05StaleTemplate(req *conformancev1.ClientCompatRequest, bits int) {
+	if bits&1 != 0 {
+		req.ServerTlsCert = []byte("-----BEGIN CERTIFICATE-----\nc3RhbGU=\n-----END CERTIFICATE-----\n")
+	}
+	if bits&2 != 0 {
+		req.ClientTlsCreds = &conformancev1.TLSCreds{Cert: []byte("stale client cert"), Key: []byte("stale client key")}
+	} else if bits&32 != 0 {
+		req.ClientTlsCreds = &conformancev1.TLSCreds{}
+	}
+	if bits&4 != 0 {
+		req.Host = "stale.invalid"
+	}
+	if bits&8 != 0 {
+		req.Port = 9
+	}
+	if bits&16 != 0 {
+		req.HttpVersion = conformancev1.HTTPVersion_HTTP_VERSION_3
+		req.Protocol = conformancev1.Protocol_PROTOCOL_GRPC_WEB
+		req.Codec = conformancev1.Codec_CODEC_JSON
+		req.Compression = conformancev1.Compression_COMPRESSION_GZIP
+	}
+}
+
+// c05TmplScenarios (op run): suites whose request templates carry runner-owned fields x TLS on/off
+// configs x both modes. The instance of a permutation is its config case's, whatever the template says.
+func c05TmplScenarios(c *gen.Ctx, allKinds []c05Suite) []any {
+	r := c.R
+	with := func(bits []int, suites []c05Suite) []c05Suite {
+		out := make([]c05Suite, len(suites))
+		for i, s := range suites {
+			s.Tmpl = bits[i%len(bits)]
+			out[i] = s
+		}
+		return out
+	}
+	mk := func(mode string, tls, certs bool, ms int, bits []int, suites []c05Suite) any {
+		c.E.Count(fmt.Sprintf("tmpl:%s:tls=%v:certs=%v", mode, tls, certs))
+		return c05In{Mode: mode, MaxServers: ms, Versions: []int{1, 2}, Protos: []int{1, 2}, TLS: tls, Certs: certs, Behaviour: "ok",
+			Run: []string{}, Skip: []string{}, Suites: with(bits, suites)}
+	}
+	ins := []any{
+		mk("both", false, false, 2, []int{1 | 2 | 4 | 8 | 16}, allKinds[:1]),
+		mk("both", true, true, 3, []int{2 | 64, 1 | 2, 32 | 4}, allKinds),
+		mk("client", false, false, 1, []int{gen.Pick(r, []int{1, 2, 3, 1 | 32})}, allKinds[:1]),
+		mk("client", true, false, 2, []int{2 | 8, 31}, allKinds[:2]),
+	}
+	if c.Thorough() {
+		for i := 0; i < 8; i++ {
+			tls := r.Bool()
+			ins = append(ins, mk(gen.Pick(r, []string{"client", "both"}), tls, tls && r.Bool(), r.Range(1, 3), []int{r.Range(1, 127), r.Range(0, 127), r.Range(1, 63)}, allKinds))
+		}
+	}
+	return ins
+}
+
 func c05Files(in c05In, dir string) (map[string][]byte, []string) {
 	files := map[string][]byte{}
 	var paths []string
@@ -510,7 +572,11 @@ func c05Files(in c05In, dir string) (map[string][]byte, []string) {
 			suite.RelevantProtocols = append(suite.RelevantProtocols, conformancev1.Protocol(p))
 		}
 		for _, t := range s.Tests {
-			suite.TestCases = append(suite.TestCases, &conformancev1.TestCase{Request: &conformancev1.ClientCompatRequest{TestName: t.Name, StreamType: conformancev1.StreamType(t.St)}})
+			req := &conformancev1.ClientCompatRequest{TestName: t.Name, StreamType: conformancev1.StreamType(t.St)}
+			if s.Tmpl != 0 && (s.Tmpl&64 == 0 || len(suite.TestCases)%2 == 0) {
+				c05StaleTemplate(req, s.Tmpl)
+			}
+			suite.TestCases = append(suite.TestCases, &conformancev1.TestCase{Request: req})
 		}
 		b, _ := protojson.Marshal(suite)
 		p := filepath.Join(dir, fmt.Sprintf("suite%d.yaml", i))
@@ -1093,6 +1159,9 @@ func runC05(c *gen.Ctx) error {
 				}
 				su.Tests = append(su.Tests, c05Test{Name: name, St: r.Range(1, 5)})
 			}
+			if r.Chance(1, 5) {
+				su.Tmpl = r.Range(1, 127)
+			}
 			in.Suites = append(in.Suites, su)
 		}
 		// patterns derived from plausible names
@@ -1163,6 +1232,7 @@ func runC05(c *gen.Ctx) error {
 	}
 	ins = append(ins, c05NameScenarios(c)...)
 	ins = append(ins, c05CertScenarios(c, allKinds)...)
+	ins = append(ins, c05TmplScenarios(c, allKinds)...)
 	// the suite set as given in files (Flags.TestFiles): equal file names in different directories, a suite in two files
 	for _, layout := range []string{"samebase", "copy"} {
 		ins = append(ins, c05In{Mode: "both", MaxServers: 2, ExitDelayMs: 0, Versions: []int{1, 2}, Protos: []int{1, 3}, Behaviour: "ok", Run: []string{}, Skip: []string{},
